@@ -193,7 +193,7 @@ pub fn check_buffer(rep: &mut Report, mode: &str, b: &[u8], key: &[u8], creds: &
     let want: Vec<(u16, Vec<u8>)> = r.exposed.iter().map(|&i| (r.attrs[i].ty, b[r.attrs[i].off..r.attrs[i].off + r.attrs[i].len].to_vec())).collect();
     let got: Vec<(u16, Vec<u8>)> = items.iter().map(|x| (x.0, x.1.clone())).collect();
     if (fl.c10 || fl.c02) && got != want {
-        let key_ = if fl.c10 { "C10:exposed-stream" } else { "C02:exposed-stream" };
+        let key_ = if mode == "c10" || !fl.c02 { "C10:exposed-stream" } else { "C02:exposed-stream" };
         rep.violate(key_, format!("iteration exposes {:x?}, the statement's rule gives {:x?} for {}", got.iter().map(|x| x.0).collect::<Vec<_>>(), want.iter().map(|x| x.0).collect::<Vec<_>>(), hex_short(b)), wit.clone());
     }
     if fl.c02 || fl.c10 {
@@ -206,7 +206,7 @@ pub fn check_buffer(rep: &mut Report, mode: &str, b: &[u8], key: &[u8], creds: &
             let res = with_timeout(5, move || { let m = Message::from_bytes(&bb).unwrap(); (m.has_attribute(t.into()), m.raw_attribute(t.into()).map(|a| (a.get_type().value(), a.value.to_vec()))) });
             let Some((has, raw)) = res else { rep.violate("C01:lookup:hang", format!("lookup did not terminate on {}", hex_short(b)), wit.clone()); rep.finish_and_exit(); };
             if has != first.is_some() || raw.as_ref() != first {
-                rep.violate(if fl.c10 { "C10:lookup-vs-exposed" } else { "C02:lookup-first-match" }, format!("lookup of type {:#06x}: has={} raw={:x?}, first exposed match is {:x?} in {}", t, has, raw.map(|x| x.1), first.map(|x| &x.1), hex_short(b)), wit.clone());
+                rep.violate(if mode == "c10" { "C10:lookup-vs-exposed" } else { "C02:lookup-first-match" }, format!("lookup of type {:#06x}: has={} raw={:x?}, first exposed match is {:x?} in {}", t, has, raw.map(|x| x.1), first.map(|x| &x.1), hex_short(b)), wit.clone());
             }
         }
         // typed lookups agree with the first match
@@ -219,9 +219,9 @@ pub fn check_buffer(rep: &mut Report, mode: &str, b: &[u8], key: &[u8], creds: &
                     let raw = RawAttribute::new(<$T>::TYPE, &f.1);
                     let want_t = <$T>::from_raw(&raw);
                     let same = match (&want_t, g) { (Ok(a), Ok(b)) => a == b, (Err(a), Err(b)) => std::mem::discriminant(a) == std::mem::discriminant(b), _ => false };
-                    if !same { rep.violate(if fl.c10 { "C10:typed-lookup" } else { "C02:typed-lookup" }, format!("attribute::<{}>() = {:?} but decoding the first exposed match gives {:?} in {}", stringify!($T), g, want_t, hex_short(b)), wit.clone()); }
+                    if !same { rep.violate(if mode == "c10" { "C10:typed-lookup" } else { "C02:typed-lookup" }, format!("attribute::<{}>() = {:?} but decoding the first exposed match gives {:?} in {}", stringify!($T), g, want_t, hex_short(b)), wit.clone()); }
                 }
-                (None, g) => { rep.violate(if fl.c10 { "C10:typed-lookup" } else { "C02:typed-lookup" }, format!("attribute::<{}>() = {:?} but no such attribute is exposed in {}", stringify!($T), g, hex_short(b)), wit.clone()); }
+                (None, g) => { rep.violate(if mode == "c10" { "C10:typed-lookup" } else { "C02:typed-lookup" }, format!("attribute::<{}>() = {:?} but no such attribute is exposed in {}", stringify!($T), g, hex_short(b)), wit.clone()); }
             }
         }}; }
         typed!(Software); typed!(Priority); typed!(Username); typed!(Fingerprint); typed!(MessageIntegritySha256); typed!(ErrorCode); typed!(XorMappedAddress);
